@@ -11,12 +11,10 @@ Definition plain (e : event) : bool :=
   match e with ERecovered _ _ _ | EObs _ _ _ _ _ => false | _ => true end.
 
 Section Reach.
-  Variable va : action -> bool.     (* which actions may occur *)
-
   Inductive cstep : core -> core -> Prop :=
   | cs_log e c : plain e = true -> cstep c (logc e c)
   | cs_obs i b c : cstep c (obsc i b c)
-  | cs_simple a c : va a = true -> cstep c (fst (step_simple a c))
+  | cs_simple a c : cstep c (fst (step_simple a c))
   | cs_err404 c : cstep c (fst (http_error 404 msg404 c))
   | cs_path p c : cstep c (mkC (c_w c) p (c_tr c))
   | cs_recover i c :
@@ -62,13 +60,11 @@ Section Reach.
     Variables (k : core -> outcome core) (i : Z).
     Hypothesis Hk : forall c, reach_o c (k c).
 
-    Lemma acts_reach : forall acts live c,
-      forallb va acts = true -> reach_a c (ref_acts k i acts live c).
+    Lemma acts_reach : forall acts live c, reach_a c (ref_acts k i acts live c).
     Proof.
-      induction acts as [|a rest IH]; intros live c Hv.
+      induction acts as [|a rest IH]; intros live c.
       - cbn. apply r_refl.
-      - cbn [forallb] in Hv. apply andb_prop in Hv. destruct Hv as [Ha Hv].
-        destruct a; cbn [ref_acts].
+      - destruct a; cbn [ref_acts].
         + destruct live.
           * pose proof (Hk (logc (ENextCall i) c)) as H.
             destruct (k (logc (ENextCall i) c)) as [c2|c2| |]; cbn in H; cbn; auto.
@@ -82,27 +78,27 @@ Section Reach.
         + eapply reach_a_trans; [|apply IH; auto]. apply reach_log2. reflexivity.
         + cbn. apply r_refl.
         + cbn. apply r_refl.
-        + pose proof (cs_simple _ c Ha) as Hs.
+        + pose proof (cs_simple (AWriteHeader c0) c) as Hs.
           destruct (step_simple (AWriteHeader c0) c) as [c' p]. cbn [fst] in Hs. destruct p.
           * cbn. apply reach_one; auto.
           * eapply reach_a_trans; [|apply IH; auto].
             eapply r_step; [apply reach_one; exact Hs|apply cs_obs].
-        + pose proof (cs_simple _ c Ha) as Hs.
+        + pose proof (cs_simple (AWrite b) c) as Hs.
           destruct (step_simple (AWrite b) c) as [c' p]. cbn [fst] in Hs. destruct p.
           * cbn. apply reach_one; auto.
           * eapply reach_a_trans; [|apply IH; auto].
             eapply r_step; [apply reach_one; exact Hs|apply cs_obs].
-        + pose proof (cs_simple _ c Ha) as Hs.
+        + pose proof (cs_simple (ASetH k0 v) c) as Hs.
           destruct (step_simple (ASetH k0 v) c) as [c' p]. cbn [fst] in Hs. destruct p.
           * cbn. apply reach_one; auto.
           * eapply reach_a_trans; [|apply IH; auto].
             eapply r_step; [apply reach_one; exact Hs|apply cs_obs].
-        + pose proof (cs_simple _ c Ha) as Hs.
+        + pose proof (cs_simple (AAddH k0 v) c) as Hs.
           destruct (step_simple (AAddH k0 v) c) as [c' p]. cbn [fst] in Hs. destruct p.
           * cbn. apply reach_one; auto.
           * eapply reach_a_trans; [|apply IH; auto].
             eapply r_step; [apply reach_one; exact Hs|apply cs_obs].
-        + pose proof (cs_simple _ c Ha) as Hs.
+        + pose proof (cs_simple (ADelH k0) c) as Hs.
           destruct (step_simple (ADelH k0) c) as [c' p]. cbn [fst] in Hs. destruct p.
           * cbn. apply reach_one; auto.
           * eapply reach_a_trans; [|apply IH; auto].
@@ -115,11 +111,10 @@ Section Reach.
             -- apply (reach_trans c c'); [apply reach_one; exact Hs|apply reach_log1; reflexivity].
     Qed.
 
-    Lemma handler_reach : forall h c,
-      forallb va (body_of h) = true -> reach_a c (ref_handler k i h c).
+    Lemma handler_reach : forall h c, reach_a c (ref_handler k i h c).
     Proof.
-      intros h c Hv. unfold ref_handler.
-      pose proof (acts_reach (body_of h) true (logc (EEnter i) c) Hv) as H.
+      intros h c. unfold ref_handler.
+      pose proof (acts_reach (body_of h) true (logc (EEnter i) c)) as H.
       assert (H0 : reach c (logc (EEnter i) c)) by (apply reach_log1; reflexivity).
       destruct (ref_acts k i (body_of h) true (logc (EEnter i) c)) as [[l' c']|[l' c']| |]; cbn in H; cbn; auto.
       - apply (reach_trans c c'); [eapply reach_trans; eauto|apply reach_log1; reflexivity].
@@ -137,53 +132,21 @@ Section Reach.
     Qed.
   End Acts.
 
-  Lemma seq_reach : forall hs i c,
-    forallb (fun h => forallb va (body_of h)) hs = true -> reach_o c (ref_seq i hs c).
+  Lemma seq_reach : forall hs i c, reach_o c (ref_seq i hs c).
   Proof.
-    induction hs as [|h rest IH]; intros i c Hv.
+    induction hs as [|h rest IH]; intros i c.
     - cbn. apply r_refl.
-    - cbn [forallb] in Hv. apply andb_prop in Hv. destruct Hv as [Hh Hr].
-      cbn [ref_seq].
-      pose proof (handler_reach (ref_seq (i + 1) rest) i (fun c0 => IH (i + 1)%Z c0 Hr) h c Hh) as H.
+    - cbn [ref_seq].
+      pose proof (handler_reach (ref_seq (i + 1) rest) i (fun c0 => IH (i + 1)%Z c0) h c) as H.
       destruct (ref_handler (ref_seq (i + 1) rest) i h c) as [[l' c']|[l' c']| |]; cbn in H; cbn; auto.
       destruct l'; cbn; auto.
-      pose proof (IH (i + 1)%Z c' Hr) as H2.
+      pose proof (IH (i + 1)%Z c') as H2.
       destruct (ref_seq (i + 1) rest c'); cbn in *; auto; eapply reach_trans; eauto.
   Qed.
 End Reach.
 
-Lemma forallb_const_true : forall A (l : list A), forallb (fun _ => true) l = true.
-Proof. induction l; cbn; auto. Qed.
-
-Lemma forallb_map_true : forall A B (f : B -> bool) (g : A -> B) l,
-  (forall x, f (g x) = true) -> forallb f (map g l) = true.
-Proof. induction l; intros; cbn; auto. rewrite H. cbn. auto. Qed.
-
-Lemma body_valid : forall h, handler_valid h = true -> forallb action_valid (body_of h) = true.
-Proof.
-  intros h H. destruct h; cbn in *; auto.
-  - rewrite forallb_app. rewrite forallb_map_true by reflexivity. reflexivity.
-  - repeat rewrite forallb_app. repeat rewrite forallb_map_true by reflexivity. reflexivity.
-Qed.
-
-Lemma chain_body_valid : forall hs,
-  chain_valid hs = true -> forallb (fun h => forallb action_valid (body_of h)) hs = true.
-Proof.
-  induction hs as [|h t IH]; intros H; cbn in *; auto.
-  apply andb_prop in H. destruct H as [H1 H2]. rewrite (body_valid h H1). cbn. auto.
-Qed.
-
-Lemma chain_body_any : forall hs,
-  forallb (fun h => forallb (fun _ : action => true) (body_of h)) hs = true.
-Proof. induction hs; cbn; auto. rewrite forallb_const_true. cbn. auto. Qed.
-
-Theorem ref_reach_any : forall hs path,
-  reach_o (fun _ => true) (init_core path) (ref hs path).
-Proof. intros. apply seq_reach. apply chain_body_any. Qed.
-
-Theorem ref_reach_valid : forall hs path,
-  chain_valid hs = true -> reach_o action_valid (init_core path) (ref hs path).
-Proof. intros. apply seq_reach. apply chain_body_valid. auto. Qed.
+Theorem ref_reach : forall hs path, reach_o (init_core path) (ref hs path).
+Proof. intros. apply seq_reach. Qed.
 
 (* ------------------------------------------------------------------ writer-level facts *)
 (* the wrapper never changes its mind: once written, written and Status() are frozen *)
@@ -279,9 +242,9 @@ Proof.
   - subst e. discriminate.
 Qed.
 
-Lemma Sinv_step : forall va c c', cstep va c c' -> Sinv c -> Sinv c'.
+Lemma Sinv_step : forall c c', cstep c c' -> Sinv c -> Sinv c'.
 Proof.
-  intros va c c' H HS. destruct H.
+  intros c c' H HS. destruct H.
   - apply Sinv_log; auto.
   - intros j st sz ab Hin. cbn in Hin. apply in_app_or in Hin. destruct Hin as [Hin|[Hin|[]]].
     + apply (HS _ _ _ _ Hin).
@@ -304,14 +267,14 @@ Theorem status_stands : forall hs path c,
   forall j st sz ab, In (EObs j st true sz ab) (c_tr c) ->
     g_written (c_w c) = true /\ g_status (c_w c) = st.
 Proof.
-  intros hs path c Hr. pose proof (ref_reach_any hs path) as H.
-  assert (Hreach : reach (fun _ => true) (init_core path) c)
+  intros hs path c Hr. pose proof (ref_reach hs path) as H.
+  assert (Hreach : reach (init_core path) c)
     by (destruct Hr as [E|E]; rewrite E in H; exact H).
-  apply (reach_inv _ Sinv (Sinv_step _) _ _ Hreach).
+  apply (reach_inv Sinv Sinv_step _ _ Hreach).
   intros j st sz ab Hin. cbn in Hin. contradiction.
 Qed.
 
-(* ------------------------------------------------------------------ getters (valid status codes) *)
+(* ------------------------------------------------------------------ getters (all status codes) *)
 Definition Gfresh (w : wstate) : Prop :=
   w_written (wr w) = false /\ w_status (wr w) = 0%N /\ w_size (wr w) = 0%N /\ ops w = [] /\
   r_wrote (rc w) = false /\ r_body (rc w) = [] /\ r_acc (rc w) = 0%N.
@@ -349,15 +312,16 @@ Ltac unpackG H :=
   unfold Gfresh, Gsent in H; cbn in H;
   repeat match type of H with _ /\ _ => let H1 := fresh "G" in destruct H as [H1 H] end.
 
-Lemma G_wh : forall c w, code_valid c = true -> Gw w ->
-  Gw (fst (w_write_header c w)) /\ snd (w_write_header c w) = false.
+Lemma G_wh : forall c w, Gw w -> Gw (fst (w_write_header c w)).
 Proof.
-  intros c w Hc HG. destruct w as [[st wrt sz] [rw rcode rb rh rs ra] ops].
+  intros c w HG. destruct w as [[st wrt sz] [rw rcode rb rh rs ra] ops].
   unfold w_write_header, wrap_write_header, rec_write_header. cbn.
   destruct HG as [H|H]; unpackG H; subst; cbn.
-  - rewrite Hc. cbn. split; auto. right. unfold Gsent. cbn. rewrite Hc.
-    repeat split; auto; try discriminate. destruct (body_allowed c); reflexivity.
-  - split; auto. right. unfold Gsent. cbn.
+  - destruct (code_valid c) eqn:Hc; cbn.
+    + right. unfold Gsent. cbn. rewrite Hc.
+      repeat split; auto; try discriminate. destruct (body_allowed c); reflexivity.
+    + left. unfold Gfresh. cbn. repeat split; auto.
+  - right. unfold Gsent. cbn.
     rewrite spec_status_app by auto. rewrite spec_bytes_app. rewrite N.add_0_r.
     repeat split; auto. apply app_not_nil.
 Qed.
@@ -380,24 +344,22 @@ Proof.
   unfold w_hdr. cbn. destruct HG as [H|H]; [left|right]; exact H.
 Qed.
 
-Lemma G_err : forall code msg w, code_valid code = true -> Gw w ->
-  Gw (fst (w_http_error code msg w)) /\ snd (w_http_error code msg w) = false.
+Lemma G_err : forall code msg w, Gw w -> Gw (fst (w_http_error code msg w)).
 Proof.
-  intros code msg w Hc HG. unfold w_http_error.
+  intros code msg w HG. unfold w_http_error.
   set (w1 := w_hdr (h_set k_xcto v_nosniff) (w_hdr (h_set k_ctype v_text) (w_hdr (h_del k_clen) w))).
   assert (H1 : Gw w1) by (unfold w1; repeat apply G_hdr; exact HG).
-  destruct (G_wh code w1 Hc H1) as [H2 H3].
-  destruct (w_write_header code w1) as [w2 p]. cbn in H2, H3. subst p.
+  pose proof (G_wh code w1 H1) as H2.
+  destruct (w_write_header code w1) as [w2 p]. cbn [fst] in H2.
+  destruct p; cbv beta iota; cbn [fst]; [exact H2|].
   apply G_write. exact H2.
 Qed.
 
-Lemma G_simple : forall a c, action_valid a = true -> Gw (c_w c) ->
-  Gw (c_w (fst (step_simple a c))) /\ snd (step_simple a c) = false.
+Lemma G_simple : forall a c, Gw (c_w c) -> Gw (c_w (fst (step_simple a c))).
 Proof.
-  intros a c Ha HG.
-  destruct a; cbn [step_simple fst snd c_w set_w];
-    try (split; [exact HG|reflexivity]); try (split; [apply G_hdr; exact HG|reflexivity]).
-  - destruct (G_wh c0 (c_w c) Ha HG). destruct (w_write_header c0 (c_w c)); cbn in *; auto.
+  intros a c HG.
+  destruct a; cbn [step_simple fst snd c_w set_w]; try exact HG; try (apply G_hdr; exact HG).
+  - pose proof (G_wh c0 (c_w c) HG). destruct (w_write_header c0 (c_w c)); cbn in *; auto.
   - destruct (G_write b (c_w c) HG). destruct (w_write b (c_w c)); cbn in *; auto.
 Qed.
 
@@ -423,7 +385,7 @@ Proof.
   auto.
 Qed.
 
-Lemma GR_step : forall c c', cstep action_valid c c' -> GR c -> GR c'.
+Lemma GR_step : forall c c', cstep c c' -> GR c -> GR c'.
 Proof.
   intros c c' H [HG HR]. destruct H.
   - split; auto. intros j sent code Hin. cbn in Hin. apply in_app_or in Hin.
@@ -457,12 +419,12 @@ Proof.
 Qed.
 
 Lemma ref_GR : forall hs path c,
-  chain_valid hs = true -> (ref hs path = Done c \/ ref hs path = Panicked c) -> GR c.
+  (ref hs path = Done c \/ ref hs path = Panicked c) -> GR c.
 Proof.
-  intros hs path c Hv Hr. pose proof (ref_reach_valid hs path Hv) as H.
-  assert (Hreach : reach action_valid (init_core path) c)
+  intros hs path c Hr. pose proof (ref_reach hs path) as H.
+  assert (Hreach : reach (init_core path) c)
     by (destruct Hr as [E|E]; rewrite E in H; exact H).
-  apply (reach_inv _ GR GR_step _ _ Hreach). apply GR_init.
+  apply (reach_inv GR GR_step _ _ Hreach). apply GR_init.
 Qed.
 
 Lemma valid_nonzero : forall c, code_valid c = true -> N.eqb c 0 = false.
@@ -498,50 +460,38 @@ Proof.
 Qed.
 
 Theorem getters_ok : forall hs path c,
-  chain_valid hs = true -> (ref hs path = Done c \/ ref hs path = Panicked c) ->
-  getters_spec (c_w c).
-Proof. intros hs path c Hv Hr. apply Gw_getters. apply (ref_GR hs path c Hv Hr). Qed.
+  (ref hs path = Done c \/ ref hs path = Panicked c) -> getters_spec (c_w c).
+Proof. intros hs path c Hr. apply Gw_getters. apply (ref_GR hs path c Hr). Qed.
 
 Theorem recovered_status : forall hs path c,
-  chain_valid hs = true -> (ref hs path = Done c \/ ref hs path = Panicked c) ->
+  (ref hs path = Done c \/ ref hs path = Panicked c) ->
   forall j sent code, In (ERecovered j sent code) (c_tr c) ->
     r_wrote (rc (c_w c)) = true /\
     r_code (rc (c_w c)) = (if sent then code else 500%N) /\
     g_written (c_w c) = true /\
     g_status (c_w c) = (if sent then code else 500%N).
 Proof.
-  intros hs path c Hv Hr j sent code Hin.
-  destruct (ref_GR hs path c Hv Hr) as [HG HR].
+  intros hs path c Hr j sent code Hin.
+  destruct (ref_GR hs path c Hr) as [HG HR].
   destruct (HR _ _ _ Hin) as [H1 H2].
   destruct (Gw_getters _ HG) as (_ & E2 & E3 & _).
   assert (Hw : g_written (c_w c) = true) by congruence.
   destruct (E3 Hw) as [_ E4]. repeat split; auto. congruence.
 Qed.
 
-(* ------------------------------------------------------------------ outside 100..999 it is false *)
+(* ------------------------------------------------------------------ the repaired defect *)
+(* Before repo commit d237067 the wrapper latched status/written before the underlying call, and
+   WriteHeader(1000) under the recovery middleware ended as 200 + Status() = 1000.  The old witness
+   now runs to a 500 with agreeing getters. *)
 Definition witness_bad_code : list handler := [Recovery; User [AWriteHeader 1000]].
 
-Lemma witness_run :
+Lemma witness_fixed :
   exists c, ref witness_bad_code [] = Done c /\
     In (ERecovered 0 false 200) (c_tr c) /\
-    g_written (c_w c) = true /\ g_status (c_w c) = 1000%N /\
-    r_wrote (rc (c_w c)) = true /\ r_code (rc (c_w c)) = 200%N /\ r_body (rc (c_w c)) = msg500.
+    g_written (c_w c) = true /\ g_status (c_w c) = 500%N /\
+    r_wrote (rc (c_w c)) = true /\ r_code (rc (c_w c)) = 500%N /\ r_body (rc (c_w c)) = msg500.
 Proof.
   eexists. split; [vm_compute; reflexivity|].
   repeat split; try (vm_compute; reflexivity).
   vm_compute. auto 10.
-Qed.
-
-Theorem getters_refuted : exists hs path c,
-  ref hs path = Done c /\ g_written (c_w c) = true /\ g_status (c_w c) <> r_code (rc (c_w c)).
-Proof.
-  destruct witness_run as (c & E & _ & Hw & Hs & _ & Hc & _).
-  exists witness_bad_code, [], c. repeat split; auto. rewrite Hs, Hc. discriminate.
-Qed.
-
-Theorem recovered_refuted : exists hs path c j code,
-  ref hs path = Done c /\ In (ERecovered j false code) (c_tr c) /\ r_code (rc (c_w c)) <> 500%N.
-Proof.
-  destruct witness_run as (c & E & Hin & _ & _ & _ & Hc & _).
-  exists witness_bad_code, [], c, 0%Z, 200%N. repeat split; auto. rewrite Hc. discriminate.
 Qed.
